@@ -199,7 +199,7 @@ UNIT = dict(
          subst=[(r'Strategy::number_of_active_hps', 'number_of_active_hps', 'counter'), (r'Strategy::K\b', 'XV_K', 'K'), (r'\bself\(\)\.', 'self->', 'self_fn'), (r'\bself\(\)', '(*self)', 'self_fn2'), (r'\bhint\b', '(*hint_p)', 'hint_ref')],
          methods={'number_of_hps': 'HP_TCB_number_of_hps'}, calls={'initialize_block': 'XV_INIT_BLOCK'}, must_fire={'A_FADD': 1, 'method:number_of_hps': 1, 'call:initialize_block': 1}),
     dict(id='hp_allocate_block', file=HPI, sig=r'hazard_pointer\* allocate_new_hazard_pointer_block\(\)', c_sig='static struct slot* hp_allocate_new_block(struct tcb* self)',
-         pre_subst=[(r'size_t buffer_size = [^;]*;\s*void\* buffer = [^;]*;\s*auto block = ::new \(buffer\) hazard_pointer_block\(hps\);', 'auto block = XV_NEW_BLOCK(hps);', 'new_block')],
+         pre_subst=[(r'(?:const\s+)?(?:std::)?size_t buffer_size = [^;]*;\s*void\*\s*(?:const\s+)?buffer = [^;]*;\s*(?:const\s+)?auto\s*\*?\s*(?:const\s+)?block = ::new \(buffer\) hazard_pointer_block\(hps\);', 'auto block = XV_NEW_BLOCK(hps);', 'new_block')],
          subst=[(r'Strategy::number_of_active_hps', 'number_of_active_hps', 'counter'), (r'Strategy::K', 'XV_K', 'K')], calls={'std::max': 'XV_MAX'},
          methods={'initialize_block': 'XV_INIT_BLOCK_M'}, members=['total_number_of_hps', 'hp_block'],
          must_fire={'subst:new_block': 1, 'A_FADD': 1, 'A_LOAD': 1, 'A_STORE': 1, 'call:std::max': 1}),
@@ -209,7 +209,7 @@ UNIT = dict(
          subst=[(r'Strategy::number_of_active_hes', 'number_of_active_hes', 'counter'), (r'Strategy::K\b', 'XV_K', 'K'), (r'\bself\(\)\.', 'self->', 'self_fn'), (r'\bself\(\)', '(*self)', 'self_fn2'), (r'\bhint\b', '(*hint_p)', 'hint_ref')],
          methods={'number_of_hes': 'HE_TCB_number_of_hes'}, calls={'initialize_block': 'XV_INIT_BLOCK'}, must_fire={'A_FADD': 1, 'method:number_of_hes': 1, 'call:initialize_block': 1}),
     dict(id='he_allocate_block', file=HEI, sig=r'hazard_era\* allocate_new_hazard_eras_block\(\)', c_sig='static struct slot* he_allocate_new_block(struct tcb* self)',
-         pre_subst=[(r'size_t buffer_size = [^;]*;\s*void\* buffer = [^;]*;\s*auto block = ::new \(buffer\) hazard_eras_block\(hes\);', 'auto block = XV_NEW_BLOCK(hes);', 'new_block')],
+         pre_subst=[(r'(?:const\s+)?(?:std::)?size_t buffer_size = [^;]*;\s*void\*\s*(?:const\s+)?buffer = [^;]*;\s*(?:const\s+)?auto\s*\*?\s*(?:const\s+)?block = ::new \(buffer\) hazard_eras_block\(hes\);', 'auto block = XV_NEW_BLOCK(hes);', 'new_block')],
          subst=[(r'Strategy::number_of_active_hes', 'number_of_active_hes', 'counter'), (r'Strategy::K', 'XV_K', 'K')], calls={'std::max': 'XV_MAX'},
          methods={'initialize_block': 'XV_INIT_BLOCK_M'}, members=['total_number_of_hes', 'he_block'],
          post_subst=[(r'total_number_of_hes', 'total_number_of_hps', 'member_alias'), (r'he_block', 'hp_block', 'member_alias2')],
